@@ -23,6 +23,11 @@ CHECKS = {
             "The complete single-point mutant set of every canonical request (7 operations x every control kind, control values opened up) in both tiers and the complete double-point set (about 5*10^7 streams) in the thorough tier are pushed through (*conn).readRequest via the verif hook with no recover in between; any panic is a violation fingerprinted by panicking gldap function + panic class. rapid adds mutation chains over generated requests, go test -fuzz adds coverage-guided byte streams, and a TCP part re-confirms against a live server by looking for the connection-level recover's log record. Exhaustive only over the stated mutation space; beyond it exploration.",
             "trusts Go's recover to observe panics; VerifDecodeStream builds a conn over an in-memory reader and calls the same readRequest the read loop calls (hook reviewed, add-only); asn1-ber's own robustness is out of scope (length cap 1 MiB, inputs <= 64 KiB)",
             "DESIGN.md §4 C02"),
+    "C14": ("exploration",
+            "property-based round-trip testing (rapid) of controls in both directions with three independent encoders / two independent decoders; constructor law for the Behera control",
+            "Request direction: 0..6 generated controls per message, each encoded by the harness's RFC-shape encoder, by gldap's own Encode or by go-ldap's Encode, decoded by the server's request path and compared field by field (type, criticality, page size, cookie, expire, grace, error + string, value) in order. Response direction: controls built with the exported constructors, written on Bind/SearchDone responses by a real handler, recovered by the harness's strict parser and by go-ldap's DecodeControl. Constructor: every subset/order of the three Behera options, error or at most one set and error <= 8. Exploration.",
+            "trusts the harness's RFC shapes (RFC 2696, draft-behera-10, draft-vchu) and go-ldap as second reader; value-less Behera and OIDs go-ldap reinterprets are excluded from the go-ldap comparison and counted; MustChange and criticality of kinds without such a field are not compared",
+            "DESIGN.md §4 C14"),
     "C16": ("exploration",
             "property-based testing (rapid) of totality, inverse and ordering laws + exhaustive 2^24 SID enumeration + native fuzzing of ConvertString",
             "Generated-input search against explicit oracles: no panic under recover for every exported helper/constructor with options drawn from ALL exported options (every subset/order reachable), ConvertString(wrap(s)) == s with an independent BER encoder, SIDBytesToString(SIDBytes(r,a)) == S-r-a (exhaustive over all 2^24 pairs in the thorough tier), NewEntry strictly sorted and stable, Values/ByteValues agreement after AddValue sequences; response constructors run inside real handlers on real requests and are written to the socket. Finds violations, cannot show absence beyond the enumerated SID space.",
